@@ -78,7 +78,9 @@ class Builder:
                 return self.done[key]
         out = os.path.join(self.cfg_dir(cfg), tu + ".o")
         src = os.path.join(REPO, "src", tu + ".c")
-        if tu.startswith("lang_"):
+        if tu == "langflags":
+            src = self.flags_unit()
+        elif tu.startswith("lang_"):
             # CBMC's C front end mis-decodes u8"..." literals with non-ASCII
             # characters: the table units are re-emitted byte-exactly from a gcc
             # build of the same source (langdata.dump), see DESIGN.md section 2
@@ -100,6 +102,15 @@ class Builder:
             if getattr(self, "_langs", None) is None:
                 self._langs = langdata.dump(self.workdir)
             return self._langs
+
+    def flags_unit(self):
+        from . import langdata
+        path = os.path.join(self.workdir, "gen_langflags.c")
+        if not os.path.exists(path):
+            tmp = path + ".%d.tmp" % threading.get_ident()
+            langdata.write_flags_unit(self.langs(), tmp)
+            os.replace(tmp, path)
+        return path
 
     def table_unit(self, lid):
         from . import langdata
